@@ -180,7 +180,8 @@ func rebootIncompleteBlobSize(key string, pather *pather) (size uint64, ok bool,
 	}
 	blobSize, err := strconv.Atoi(string(blobSizeData))
 	if err != nil {
-		return 0, false, fmt.Errorf("blob size sidecar file is in unexpected format: %w", err)
+		// The size file was created but not (fully) written before a crash, we fail-open by evicting the blob.
+		return 0, false, nil
 	}
 	return uint64(blobSize), true, nil
 }
